@@ -46,6 +46,12 @@ func script0(w *W) string {
 	default:
 		fmt.Fprintf(&b, "$ch = new Channel(%d);\n", w.Cap)
 	}
+	if w.CloneDrop {
+		// (one line: the nested-spawn wrapper keeps the first line outside the outer coroutine)
+		first := strings.TrimSuffix(strings.TrimPrefix(b.String(), "<?php\n"), "\n")
+		b.Reset()
+		b.WriteString("<?php\n" + strings.Replace(first, "$ch = ", "$ch0 = ", 1) + " $ch = clone $ch0; $ch0 = null;\n")
+	}
 	id := 0
 	nap := func(id int) string {
 		if w.SleepMask&(1<<uint(id)) != 0 {
@@ -191,6 +197,7 @@ func execScript(t *testing.T, w *W, s hx.Sched) *hx.Outcome {
 	cur := make([]int, ntasks)
 	src := script(w)
 	producersLeft := len(w.Producers)
+	nOps, gcFaults := 0, int64(0)
 	var env *hx.Env
 	var mainCtl string
 	res := hx.RunBubble(t, s.Config(0), func(sim *verifsim.Sim) {
@@ -199,6 +206,13 @@ func execScript(t *testing.T, w *W, s hx.Sched) *hx.Outcome {
 		_ = restore
 		env.VM.AddFunc(&hx.GoFunc{Name: "__b", Params: []string{"task", "kind", "arg"}, Fn: func(ctx data.Context, a []data.Value) (data.GetValue, data.Control) {
 			id := atoi(hx.ValStr(a[0]))
+			if w.CloneDrop && w.GCEvery > 0 {
+				nOps++
+				if nOps%w.GCEvery == 0 {
+					verifsim.CollectNow() // fault: the collector runs now (cleanups of unreachable objects become tasks)
+					gcFaults++
+				}
+			}
 			cur[id] = h.begin(id, hx.ValStr(a[1]), hx.ValStr(a[2]))
 			return data.NewNullValue(), nil
 		}})
@@ -281,6 +295,9 @@ func execScript(t *testing.T, w *W, s hx.Sched) *hx.Outcome {
 	data.ResetOutputWriter()
 	o.Res = res
 	evaluateAll(o, w, h.all(), res, ntasks)
+	if gcFaults > 0 {
+		o.Fault("collector_runs_now", gcFaults)
+	}
 	if sm, ok := o.Sample.(map[string]any); ok {
 		sm["script"] = src
 	}
